@@ -381,11 +381,11 @@ def build_case(rng, o):
         for ti, t in enumerate(u.toks):
             if t.kind == "lit" or t.text not in olds: continue
             line = u.lines[t.line - 1]
-            bcol = len(line[:t.col].encode("utf-8"))
+            bcol = len(line[:t.col].encode("utf-8", "surrogateescape"))
             k, node = sites.get(ti, (None, None))
             rk = k if k is not None else olds[t.text]
             old, new = relates[rk][1], relates[rk][2]
-            cl.append([str(t.line), str(bcol), str(len(old.encode())), new, "1" if k is not None else "0"])
+            cl.append([str(t.line), str(bcol), str(len(old.encode("utf-8", "surrogateescape"))), new, "1" if k is not None else "0"])
             if ti in chain_toks: tags.add("chain_call")
             if k is None: continue
             nsites += 1
@@ -403,8 +403,8 @@ def build_case(rng, o):
         for c in sorted(cl, key=lambda c: (int(c[0]), -int(c[1]))):
             if c[4] != "1": continue
             li = int(c[0]) - 1
-            b = lines[li].encode("utf-8")
-            lines[li] = (b[:int(c[1])] + c[3].encode() + b[int(c[1]) + int(c[2]):]).decode("utf-8")
+            b = lines[li].encode("utf-8", "surrogateescape")
+            lines[li] = (b[:int(c[1])] + c[3].encode("utf-8", "surrogateescape") + b[int(c[1]) + int(c[2]):]).decode("utf-8", "surrogateescape")
         assert eol_transform("\n".join(lines), o.eol, o.final_nl) == expected[p], "generator: renderings disagree for " + p
     conf = conf_text(rng, conf_lines, o.conf_style)
     if o.conf_style in ("blanks", "wide_arrow"): tags.add("conf_blanks")
